@@ -69,6 +69,11 @@ class Module:
         from . import alpha
 
         self.renamed_locals = alpha.normalise_module(self.tree, rel) if os.environ.get("VERIF_NO_ALPHA") != "1" else 0
+        # ... and comparisons by what they test, not by which operand is written first (see sa/orient.py); after the renaming, so that
+        # the texts are comparable with the reference
+        from . import orient
+
+        self.mirrored_compares = orient.normalise_module(self.tree, rel) if os.environ.get("VERIF_NO_ALPHA") != "1" else 0
         self.functions: dict[str, FunctionInfo] = {}
         self.classes: dict[str, ClassInfo] = {}
         self.consts: dict[str, ast.AST] = {}
